@@ -155,23 +155,31 @@ func verifEmitLocked(ev map[string]interface{}) {
 	verifState.w.Flush()
 }
 
-func verifRole() string {
-	pcs := make([]uintptr, 16)
+// verifRole names the goroutine the hook runs on (packet loop, relay or plain
+// handler) and reports whether the hook runs in a deferred call of a
+// panicking goroutine.
+func verifRole() (role string, panicking bool) {
+	pcs := make([]uintptr, 32)
 	n := runtime.Callers(3, pcs)
 	frames := runtime.CallersFrames(pcs[:n])
+	role = "handler"
+	found := false
 	for {
 		f, more := frames.Next()
-		if strings.HasSuffix(f.Function, "protocol.forward") {
-			return "relay"
+		if f.Function == "runtime.gopanic" {
+			panicking = true
 		}
-		if strings.HasSuffix(f.Function, "(*Processor).Process") {
-			return "loop"
+		if !found && strings.HasSuffix(f.Function, "protocol.forward") {
+			role, found = "relay", true
+		}
+		if !found && strings.HasSuffix(f.Function, "(*Processor).Process") {
+			role, found = "loop", true
 		}
 		if !more {
 			break
 		}
 	}
-	return "handler"
+	return role, panicking
 }
 
 func verifArg(a interface{}) interface{} {
@@ -195,8 +203,11 @@ func verifHook(point string, t *Tunnel, args ...interface{}) {
 	if !verifState.on {
 		return
 	}
-	role := verifRole()
+	role, panicking := verifRole()
 	ev := map[string]interface{}{"pt": point, "role": role}
+	if panicking {
+		ev["panicking"] = true
+	}
 
 	verifState.mu.Lock()
 	if t == nil && len(args) > 0 {
